@@ -1,6 +1,7 @@
 (* C13 — capacity management is transparent, meets its bounds, and growth is bounded. *)
 Require Import LruV.T.TableA LruV.A.SpecA LruV.T.GrowthA.
 Require Import LruV.T.GrowthMon.
+Require Import LruV.A.InvA LruV.B.StepB LruV.B.RefineB LruV.B.ReachB.
 
 Definition cap_op (p : op) : bool := match p with Reserve _ | TryReserve _ | ShrinkTo _ | ShrinkToFit => true | _ => false end.
 
@@ -146,6 +147,23 @@ Example C13_example_reserve :
   exists s', stepA 72 24 fixed s (Reserve 28) {| o_tomb := 0; o_reuse := false; o_alloc := true |} = Some (s', OUnit, rebuilt_ev s) /\ capacity (tb s') = 28.
 Proof. cbv zeta. eexists. split; vm_compute; reflexivity. Qed.
 
+(* at pointer level: reserve, try_reserve, shrink_to and shrink_to_fit as the code runs them (every node moved to the bucket the
+   new table hands out, the links of its neighbours redirected, the old buckets freed) from any reachable state keep the
+   entries, their order, their recorded sizes, the counter and the limit, drop and evict nothing, leave the structure
+   coherent; a successful reservation makes room for the requested number of further entries *)
+Theorem C13_pointer_level : forall E VS, 0 < E -> VS <= E -> forall b p oB b' out evs,
+  ReachB E VS b -> cap_op p = true -> stepB E VS b p oB = Some (b', out, evs) ->
+  ents (absB b') = ents (absB b) /\ bcur b' = bcur b /\ bmax b' = bmax b /\ e_dropped evs = [] /\ e_evicted evs = [] /\ RIb b' /\
+  (forall n, (p = Reserve n /\ out = OUnit) \/ (p = TryReserve n /\ out = OResOk) -> len (absB b) + n <= capacity (btb b')).
+Proof.
+  intros E VS HE HV b p oB b' out evs HR Hc Hstep.
+  destruct (reachB_step E VS HE HV b _ oB b' out evs HR Hstep) as (HA & HRI & _).
+  destruct (C13_transparent E VS _ p _ _ out evs Hc HA) as (H1 & H2 & H3 & H4 & H5).
+  repeat (split; [assumption|]). intros n [[-> Ho]|[-> Ho]].
+  - exact (C13_reserve E VS _ n _ _ out evs (or_introl (conj HA Ho))).
+  - exact (C13_reserve E VS _ n _ _ out evs (or_intror (conj HA Ho))).
+Qed.
+
 Print Assumptions C13_transparent.
 Print Assumptions C13_reserve.
 Print Assumptions C13_try_reserve_fail.
@@ -158,3 +176,4 @@ Print Assumptions C13_monitor_growth_insert.
 Print Assumptions C13_monitor_growth_try_insert.
 Print Assumptions C13_pinned_shrink_refuted.
 Print Assumptions C13_monitor_sound.
+Print Assumptions C13_pointer_level.
